@@ -51,6 +51,7 @@ type HarnessSpec struct {
 	Replay     string   `json:"replay"` // "direct" (default) | "none"
 	Note       string   `json:"note"`
 	InitPkgs   []string `json:"init_pkgs"` // packages whose variable initialisers are executed before the harness
+	NoAutoInit bool     `json:"no_auto_init"` // do not run the initialisers of the /repo packages the harness package depends on
 	Redirects  map[string]string `json:"redirects"` // callee (fully qualified) -> harness function implementing its contract
 	ReplayRepeat int    `json:"replay_repeat"`
 	NativeRace bool     `json:"native_race"`
@@ -77,6 +78,7 @@ type Engine struct {
 	opaqueErrT types.Type
 	globalInit func(st *State, g *ssa.Global, o *Object)
 	redirects  map[string]*ssa.Function
+	initOK     map[*ssa.Package]bool // /repo packages whose variable initialisers the engine can execute (lazily, on first touch)
 
 	mu            sync.Mutex
 	funcs         map[string]string // function -> file
@@ -281,6 +283,7 @@ func (q *workQueue) done() {
 
 func (e *Engine) newState(w *Worker, prefix []Decision) *State {
 	return &State{eng: e, w: w, tt: w.tt, prefix: prefix,
+		pkgInit: map[*ssa.Package]bool{},
 		globals: map[*ssa.Global]*Object{}, strCache: map[string]StrV{}, errCache: map[string]IfaceV{},
 		covers: map[string]*CoverHit{}, mutexes: map[string]*mutexState{}, onces: map[string]*onceState{},
 		wgs: map[string]*wgState{}, conds: map[string]int{}, atomicHB: map[string][]int{},
@@ -313,6 +316,7 @@ func (e *Engine) runPath(w *Worker, entry *ssa.Function, prefix []Decision) (st 
 		}
 	}()
 	th := st.newThread(FuncV{Fn: entry}, nil, "main")
+	st.cur = th
 	if len(e.spec.InitPkgs) > 0 {
 		st.initMode = true
 		st.cur = th
@@ -329,7 +333,116 @@ func (e *Engine) runPath(w *Worker, entry *ssa.Function, prefix []Decision) (st 
 	return st, pathOutcome{"OK", ""}
 }
 
+// Package variables of /repo packages: the variable initialisers of a package are executed
+// lazily, the first time one of its package variables is touched on a path (nested for the
+// packages its initialisers touch in turn).  init() functions - plugin registration and the
+// like - are not run, nor anything of packages outside /repo or of packages whose variables
+// the engine models itself.  Whether a package's initialisers can be executed at all is
+// decided once per run by trial runs on scratch states (computeAutoInit); a package that
+// cannot keeps lazily zeroed variables.
+
+// packages whose package variables are given their values by the engine (misc.go globalInit)
+var engineModelled = map[string]bool{"github.com/IrineSistiana/mosdns/v5/pkg/pool": true}
+
+const repoModule = "github.com/IrineSistiana/mosdns/"
+
+// lazyInit runs p's variable initialisers now (called from globalObj).
+func (st *State) lazyInit(p *ssa.Package) {
+	fn := p.Func("init")
+	if fn == nil || len(fn.Blocks) == 0 || st.cur == nil {
+		return
+	}
+	th := st.cur
+	nthr, nviol := len(st.thrs), len(st.violations)
+	st.initStack = append(st.initStack, p)
+	st.callSyncNoIntrinsic(th, FuncV{Fn: fn}, nil)
+	st.initStack = st.initStack[:len(st.initStack)-1]
+	if len(st.thrs) != nthr {
+		panic(pathAbort{kind: "UNSUPPORTED", msg: "package initialiser of " + p.Pkg.Path() + " starts goroutines"})
+	}
+	if len(st.violations) != nviol {
+		st.violations = st.violations[:nviol]
+		panic(pathAbort{kind: "UNSUPPORTED", msg: "package initialiser of " + p.Pkg.Path() + " fails"})
+	}
+}
+
+func (e *Engine) computeAutoInit(w *Worker, entry *ssa.Function) {
+	e.initOK = map[*ssa.Package]bool{}
+	if e.spec.NoAutoInit || entry.Pkg == nil {
+		return
+	}
+	var cands []*ssa.Package
+	seen := map[*types.Package]bool{}
+	var visit func(tp *types.Package)
+	visit = func(tp *types.Package) {
+		if seen[tp] || !strings.HasPrefix(tp.Path(), repoModule) || engineModelled[tp.Path()] {
+			return
+		}
+		seen[tp] = true
+		for _, imp := range tp.Imports() {
+			visit(imp)
+		}
+		if sp := e.prog.Package(tp); sp != nil {
+			cands = append(cands, sp)
+			e.initOK[sp] = true
+		}
+	}
+	visit(entry.Pkg.Pkg)
+	try := func(p *ssa.Package) (bad *ssa.Package, reason string) {
+		st := e.newState(w, nil)
+		th := st.newThread(FuncV{Fn: entry}, nil, "main")
+		st.cur = th
+		defer func() {
+			if r := recover(); r != nil {
+				reason = fmt.Sprint(r)
+				if a, ok := r.(pathAbort); ok {
+					reason = a.kind + ": " + a.msg
+				}
+				bad = p
+				if n := len(st.initStack); n > 0 {
+					bad = st.initStack[n-1]
+				}
+			}
+		}()
+		st.pkgInit[p] = true
+		st.lazyInit(p)
+		if os.Getenv("GOSYM_DEBUG_INIT") != "" {
+			fmt.Fprintf(os.Stderr, "init %s: %d steps\n", p.Pkg.Path(), st.steps)
+		}
+		return nil, ""
+	}
+	for changed := true; changed; {
+		changed = false
+		for _, p := range cands {
+			if !e.initOK[p] {
+				continue
+			}
+			if bad, reason := try(p); bad != nil {
+				delete(e.initOK, bad)
+				e.addAssumption("package variable initialisers of " + bad.Pkg.Path() + " are not executed (" + reason + "): its package variables start zeroed")
+				changed = true
+			}
+		}
+	}
+}
+
+func (e *Engine) addAssumption(s string) {
+	e.mu.Lock()
+	e.assumptions[s] = true
+	e.mu.Unlock()
+}
+
 func (e *Engine) explore(entry *ssa.Function, nWorkers int, deadline time.Time) {
+	{
+		timeout := time.Duration(e.cfg.TimeoutS) * time.Second
+		if timeout == 0 {
+			timeout = 10 * time.Second
+		}
+		w := &Worker{tt: NewTermTable()}
+		w.solver = NewPortfolio(w.tt, timeout, false)
+		e.computeAutoInit(w, entry)
+		w.solver.Close()
+	}
 	q := &workQueue{}
 	q.cond = sync.NewCond(&q.mu)
 	q.items = [][]Decision{nil}
